@@ -514,6 +514,6 @@ func TestC16(t *testing.T) {
 			return out
 		},
 		Strip: func(c RoCase) any { d := c; d.Sched = kit.Sched{}; return d },
-		Rule:  "a replica engine (read-only flag set, real EngineApplier) receives 1-14 replicated puts/deletes/merges while 2-24 client calls are made to methods picked from the run-time method sets of *engine.EngineFacade and the service server (bypass methods *Internal, Close, SetReadOnly, GetWAL excluded and listed in the evidence), arguments synthesised from the parameter types; either alternating phases with the full-scan fingerprint compared with the model of replicated operations after every client call, or concurrently (applier task + 1-3 client tasks, conc/dense scheduling) with the comparison at the end - this explores the applier's SetReadOnly(false)...SetReadOnly(true) window of merge entries. Calls classified mutating must return a read-only error; GetNodeInfo must report role, primary address and read-only flag of the configuration. The real replication.Manager starts the replica (primary unreachable; the entries are fed to the manager's own applier) and in 30% of the cases is stopped part-way while clients keep calling: the node must stay read-only. In half of the concurrent cases the entries start to arrive as soon as the replica's own loop runs, i.e. possibly before Manager.Start has returned. Batches have one, two or three entries, put-first or delete-first. 8% of the cases give the manager another spelling of the mode ("Replica", "REPLICA", "standby", ...): either it refuses to start and leaves the engine writable, or the node is a replica in every respect, node information included. non-trivial = >=1 replicated entry and >=1 mutating call",
+		Rule:  "a replica engine (read-only flag set, real EngineApplier) receives 1-14 replicated puts/deletes/merges while 2-24 client calls are made to methods picked from the run-time method sets of *engine.EngineFacade and the service server (bypass methods *Internal, Close, SetReadOnly, GetWAL excluded and listed in the evidence), arguments synthesised from the parameter types; either alternating phases with the full-scan fingerprint compared with the model of replicated operations after every client call, or concurrently (applier task + 1-3 client tasks, conc/dense scheduling) with the comparison at the end - this explores the applier's SetReadOnly(false)...SetReadOnly(true) window of merge entries. Calls classified mutating must return a read-only error; GetNodeInfo must report role, primary address and read-only flag of the configuration. The real replication.Manager starts the replica (primary unreachable; the entries are fed to the manager's own applier) and in 30% of the cases is stopped part-way while clients keep calling: the node must stay read-only. In half of the concurrent cases the entries start to arrive as soon as the replica's own loop runs, i.e. possibly before Manager.Start has returned. Batches have one, two or three entries, put-first or delete-first. 8% of the cases give the manager another spelling of the mode (Replica, REPLICA, standby, ...): either it refuses to start and leaves the engine writable, or the node is a replica in every respect, node information included. non-trivial = >=1 replicated entry and >=1 mutating call",
 	})
 }
